@@ -370,7 +370,8 @@ def c02(ctx):
             else:
                 ctx.instance('tie-break')
     # case folding and the name alphabet, all 256 byte values
-    up = _find_fn(m, lambda fn: len(fn['_params']) == 1 and fn['type']['qualType'].startswith('char (char') and _has_op(fn, '-'))
+    # the case-folding helper: the only char -> char function of the unit (however it computes)
+    up = _find_fn(m, lambda fn: len(fn['_params']) == 1 and fn['type']['qualType'].replace('const ', '').startswith('char (char'))
     alpha = None
     for name, fn in m.prog.functions.items():
         if len(fn['_params']) == 1 and 'char' in fn['_params'][0]['type']['qualType'] and fn['type']['qualType'].startswith('int'):
